@@ -64,7 +64,7 @@ class Model:
 def alphabet(kind):
     ops = []
     if kind in ('full', 'util'):
-        comps = ('a', 'a2', 'u', 'u2') if kind == 'full' else ('a', 'a2', 'u')
+        comps = ('a', 'a2', 'u', 'u2')
         infos = ('', 'x') if kind == 'full' else ('',)
         for c in comps:
             for pi in (0, 1):
@@ -375,7 +375,7 @@ HARNESSES = [
             tiers=dict(quick=dict(budget_s=150, parts=16, params=dict(kind='util', L=3)),
                        thorough=dict(budget_s=3000, parts=16, params=dict(kind='util', L=4))),
             encoded=_ENC,
-            bounds='utilities only: every history of <=3 (thorough 4) calls from 24 (register a / a2 / u under I / ISub and "" / "n"; unregister None / a / u): '
+            bounds='utilities only: every history of <=3 (thorough 4) calls from 28 (register a / a2 / u / u2 (== u, unhashable) under I / ISub and "" / "n"; unregister None / a / u): '
                    'same component under several names, replaced, then removed; the per-(provided, component) counting and its switch to the '
                    'non-hashing strategy', oracle=_OR, stubs=['notify recorder']),
     Harness('e_adapters_deep', make_e, kind='E', impls=('py',),
